@@ -77,6 +77,10 @@ def run(ctx: Ctx):
         for N in range(4, b + 1):
             recs.append(record(alg, N))
             ctx.count(1, nontrivial_key=(alg, N))
+    # one size class far beyond the every-N sweep: fine grids have genuine borders of 1e-3 rad and less (ico_250: 6.1e-4)
+    for alg, N in ([("ico", 250), ("cube3D", 300), ("randomS", 200), ("ico", 400)] if thorough else [("ico", 250)]):
+        recs.append(record(alg, N))
+        ctx.count(1, nontrivial_key=(alg, N))
     for i, r in enumerate(recs):
         r["tid"] = i
     chunk = 60
